@@ -2,7 +2,7 @@
    goat.Proxy (case type, model comparison and helpers: Check/C16c.v). *)
 From Coq Require Import List ZArith Bool Lia.
 Import ListNotations.
-From Goat Require Import Base.Explore Model.Proxy Check.C16c.
+From Goat Require Import Base.Explore Model.Proxy Model.ProxyHeld Check.C16c.
 Open Scope Z_scope.
 
 (* steps as (step number, actions) / (step number, observation) *)
@@ -199,6 +199,67 @@ Definition spec_shutdown (steps : list (list act)) (observed : list pobs) : bool
            end end) (writes_of 0 observed)
   end.
 
+(* ---- comparison with the held-loop model (Model/ProxyHeld.v) ---- *)
+(* exploration state: base state, is the loop inside a callback, the record whose callback will hold it *)
+Record hx := mkHX { hx_s : state; hx_held : bool; hx_armed : option nat }.
+Definition hx_eqb (a b : hx) : bool :=
+  Bool.eqb (hx_held a) (hx_held b) && option_eqb Nat.eqb (hx_armed a) (hx_armed b) && state_eqb (hx_s a) (hx_s b).
+
+Definition all_kinds : list rk :=
+  [KFwExit; KFwCmd; KFwErrRd; KFwErrWr; KFwErrDl; KRdRead; KRdCtx; KRdGiveup; KWrTake; KWrExit; KWrWrite; KWrCtx; KWrGiveup; KDlGiveup].
+Definition is_err_rule (k : rk) : bool := match k with KFwErrRd | KFwErrWr | KFwErrDl => true | _ => false end.
+
+(* every enabled rule of the held model: the serve loop's only while it is not held; handling the failure of the
+   armed record puts the loop into that record's callback *)
+Definition hx_succs (cf : cfg) (x : hx) : list hx :=
+  flat_map (fun k =>
+    if hx_held x && is_loop_rule k then [] else
+    flat_map (fun j =>
+      match apply_rule cf k j (hx_s x) with
+      | Some s' =>
+          let hold := is_err_rule k && match hx_armed x with Some a => Nat.eqb a j | None => false end in
+          [mkHX (canon s') (hx_held x || hold) (if hold then None else hx_armed x)]
+      | None => []
+      end) (match k with KFwExit => [0%nat] | _ => seq 0 (length (clients (hx_s x))) end)) all_kinds.
+
+Definition hx_settle (cf : cfg) (xs : list (hx * list nat)) : list (hx * list nat) :=
+  flat_map (fun p => match explore hx_eqb (hx_succs cf) 20000 [fst p] [fst p] [] with
+                     | Some qs => map (fun q => (q, snd p)) qs
+                     | None => [] end) xs.
+
+Fixpoint hx_group (cf : cfg) (xs : list (hx * list nat)) (g : list hact) : list (hx * list nat) :=
+  match g with
+  | [] => hx_settle cf xs
+  | HA a :: t =>
+      hx_group cf (Explore.filter_map (fun p => match tr_act (snd p) a with
+                                                | Some a' => Some (mkHX (canon (ext (hx_s (fst p)) a')) (hx_held (fst p)) (hx_armed (fst p)),
+                                                                   match a with AAttach _ _ => snd p ++ [length (clients (hx_s (fst p)))] | _ => snd p end)
+                                                | None => None end) xs) t
+  | HHold r :: t => hx_group cf (map (fun p => (mkHX (hx_s (fst p)) (hx_held (fst p)) (nth_error (snd p) r), snd p)) xs) t
+  | HRelease :: t => hx_group cf (map (fun p => (mkHX (hx_s (fst p)) false None, snd p)) xs) t
+  | HWait :: t => hx_group cf (hx_settle cf xs) t
+  end.
+
+Fixpoint hagree_from (cf : cfg) (i : nat) (cands : list cand) (hsteps : list (list hact)) (observed : list pobs) : option nat :=
+  match hsteps, observed with
+  | g :: steps', o :: obs' =>
+      let xs := map (fun c : cand => (mkHX (clear_log (fst c)) false None, snd c)) cands in
+      let ends := hx_group cf xs g in
+      let nexts := Explore.filter_map (fun p => if hx_held (fst p) then None else
+                                                match obs_match (snd p) (hx_s (fst p)) o with
+                                                | Some m2 => Some (hx_s (fst p), m2)
+                                                | None => None end) ends in
+      match dedup cand_eqb nexts with
+      | [] => Some i
+      | ns => hagree_from cf (S i) ns steps' obs'
+      end
+  | [], [] => None
+  | _, _ => Some i
+  end.
+
+Definition plain_steps (hsteps : list (list hact)) : list (list act) :=
+  map (fun g => Explore.filter_map (fun h => match h with HA a => Some a | _ => None end) g) hsteps.
+
 Definition check17 (c : pxcase) : list nat :=
   match c with
   | CProxy pname buf icp steps observed =>
@@ -212,6 +273,15 @@ Definition check17 (c : pxcase) : list nat :=
   | CProxyLoose pname buf icp steps observed =>
       let f := icp_of icp in
       (if spec_source f steps observed then [] else [2%nat])
+      ++ (if spec_alive steps observed then [] else [3%nat])
+      ++ (if spec_isolation f steps observed then [] else [4%nat])
+      ++ (if spec_removal f steps observed then [] else [5%nat])
+      ++ (if spec_shutdown steps observed then [] else [6%nat])
+  | CProxyHeld pname buf icp hsteps observed =>
+      let f := icp_of icp in
+      let steps := plain_steps hsteps in
+      (match hagree_from (cfg_of pname buf icp) 0 [(init, [])] hsteps observed with None => [] | Some _ => [1%nat] end)
+      ++ (if spec_source f steps observed then [] else [2%nat])
       ++ (if spec_alive steps observed then [] else [3%nat])
       ++ (if spec_isolation f steps observed then [] else [4%nat])
       ++ (if spec_removal f steps observed then [] else [5%nat])
